@@ -106,10 +106,10 @@ Proof. unfold xy_sel. destruct (Z.ltb_spec 0 c), (Z.leb_spec c 0); try reflexivi
 
 Theorem selected_partition area p : selected area true p = negb (selected area false p).
 Proof.
-  unfold selected. rewrite xy_sel_compl.
-  destruct (prest p) as [|z r]; [reflexivity|]. destruct area as [|v0 vs]; [reflexivity|].
-  cbv zeta.
-  destruct (xy_sel false (wn (v0 :: vs) p)); cbn [negb andb orb]; [reflexivity|].
+  unfold selected. destruct area as [|v0 vs]; [apply xy_sel_compl|].
+  cbv zeta. rewrite xy_sel_compl.
+  destruct (prest p) as [|z r]; [reflexivity|].
+  destruct (xy_sel false (wn_edges (edges (v0 :: vs)) p)); cbn [negb andb orb]; [reflexivity|].
   destruct (Qleb_spec (zmin_of v0 vs) z), (Qleb_spec z (zmax_of v0 vs)),
            (Qltb_spec z (zmin_of v0 vs)), (Qltb_spec (zmax_of v0 vs) z); cbn; try reflexivity; exfalso; lra.
 Qed.
